@@ -14,6 +14,10 @@ static long wrap(int n, ...) { va_list ap, aq; long r; va_start(ap, n); va_copy(
 static int fmt(char *buf, unsigned long n, const char *f, ...) { va_list ap; int r; va_start(ap, f); r = vsnprintf(buf, n, f, ap); va_end(ap); return r; }
 static double manyfixed(int a, int b, int c, int d, int e, int f, double g, double h, double i, double j, double k, double l, double m, double n, ...) { va_list ap; double s = a + b + c + d + e + f + g + h + i + j + k + l + m + n; va_start(ap, n); s += va_arg(ap, int) * 2; s += va_arg(ap, double) * 3; s += va_arg(ap, long) * 5; s += va_arg(ap, double) * 7; va_end(ap); return s; }
 static int promo(int n, ...) { va_list ap; int s = 0; va_start(ap, n); s += va_arg(ap, int); s += va_arg(ap, int) * 2; s += va_arg(ap, int) * 4; s += va_arg(ap, int) * 8; s += (int)(va_arg(ap, double) * 16); s += va_arg(ap, int) * 32; va_end(ap); return s; }
+/* named parameters of a variadic function are converted to the parameter type like any other argument: int to long, int to double, double to float, long to short */
+static long ltotal(long first, ...) { va_list ap; long s = first, v; va_start(ap, first); while ((v = va_arg(ap, long)) != 0) s += v; va_end(ap); return s; }
+static double dscale(double factor, int n, ...) { va_list ap; double r = 0; va_start(ap, n); while (n-- > 0) r += factor * va_arg(ap, double); va_end(ap); return r; }
+static double fnamed(float f, unsigned long u, short h, _Bool b, ...) { va_list ap; double r; va_start(ap, b); r = f * 2 + (double)(u >> 60) + h + b + va_arg(ap, int); va_end(ap); return r; }
 int main(void) {
 	char buf[64]; int x = 5; signed char sc = -3; unsigned char uc = 200; short sh = -300; unsigned short us = 60000; float f = 1.5f; _Bool b = 1;
 	P(isum(0)); P(isum(1, 5)); P(isum(3, 1, 2, 3)); P(isum(8, 1, 2, 3, 4, 5, 6, 7, 8)); P(isum(12, 1, 2, 3, 4, 5, 6, 7, 8, 9, 10, 11, 12));
@@ -22,5 +26,7 @@ int main(void) {
 	PD(manyfixed(1, 2, 3, 4, 5, 6, 1., 2., 3., 4., 5., 6., 7., 8., 9, 10., 11L, 12.)); P(promo(6, sc, uc, sh, us, f, b));
 	P(snprintf(buf, sizeof buf, "%d %d %d %d %g %d %c", sc, uc, sh, us, f, b, 'z')); P(strcmp(buf, "-3 200 -300 60000 1.5 1 z"));
 	printf("%s %d %ld %lld %u %lu %x %c %f %g %e %5.1f|%-4d|%04d %p\n", "s", -1, -2L, -3LL, 4u, 5UL, 255, 'q', 1.5, 2.5e10, 3.25, 9.87, 7, 42, (void *)0);
+	{ int i = -7; unsigned u = 0xf0000000u; P(ltotal(i, 1L, 0L) == -6); P(ltotal(u, 0L) == 0xf0000000L); P(ltotal(sc, -1L, 0L) == -4); PD(dscale(2, 2, 1.5, 2.5)); PD(dscale(i, 1, 0.5)); PD(dscale(f, 1, 2.0));
+	  PD(fnamed(1.25, u, 0x12345, 0x100, 3)); PD(fnamed(i, -1, sh, 0.5, sc)); }
 	return 0;
 }
